@@ -170,6 +170,7 @@ pub fn scenario(seed: u64, rep: &mut Report) {
             let mut may_replace_session: Vec<Id> = Vec::new();
             let mut may_replace_user: Vec<Id> = Vec::new();
             let mut discovered_now: Vec<Enr> = Vec::new();
+            let mut session_now: Option<(Id, SocketAddr, ConnectionDirection)> = None;
             let k = rng.usize(nodes.len());
             let what = rng.below(100);
             if what < 30 {
@@ -194,8 +195,18 @@ pub fn scenario(seed: u64, rep: &mut Report) {
                         }
                     }
                 }
-                let enr = shape(&mut rng, &mut nodes[k], bump);
+                // A node that is not in the table may hand in an older record than the one a
+                // running lookup has heard of meanwhile (the lookup learnt it after the who-are-you
+                // query was answered): the session is reported with what the node handed in.
+                let older = dir == ConnectionDirection::Incoming && !prev.contains_key(&nodes[k].id) && rng.chance(1, 3);
+                let keep = nodes[k].seq;
+                let enr = shape(&mut rng, &mut nodes[k], if older { -1 } else { bump });
+                if older {
+                    nodes[k].seq = keep;
+                    rep.count("incoming_sessions_with_an_older_record_than_gossip");
+                }
                 let sock = session_socket(mode, &enr, &mut rng);
+                session_now = Some((nodes[k].id, sock, dir));
                 log.push(json!({"step": step, "ev": "Established", "node": hx(&nodes[k].id[..4]), "seq": enr.seq(), "udp4": enr.udp4_socket().map(|s| s.to_string()), "udp6": enr.udp6_socket().map(|s| s.to_string()), "socket": sock.to_string(), "dir": format!("{dir:?}")}));
                 may_add.push(nodes[k].id);
                 may_replace_session.push(nodes[k].id);
@@ -235,6 +246,20 @@ pub fn scenario(seed: u64, rep: &mut Report) {
                         nodes[j].seq = keep;
                     }
                     recs.push(e);
+                }
+                // two versions of one node's record in a single answer, the newer one first
+                if !recs.is_empty() && rng.chance(1, 4) {
+                    let first = recs[rng.usize(recs.len())].node_id().raw();
+                    if let Some(j) = nodes.iter().position(|n| n.id == first) {
+                        let keep = nodes[j].seq;
+                        let newer = shape(&mut rng, &mut nodes[j], 2);
+                        let older = shape(&mut rng, &mut nodes[j], -1);
+                        let _ = keep;
+                        nodes[j].seq = newer.seq();
+                        recs.push(newer);
+                        recs.push(older);
+                        rep.count("answers_with_two_versions_of_a_record");
+                    }
                 }
                 if rng.chance(1, 5) {
                     recs.push(rig.local_enr());
@@ -298,6 +323,20 @@ pub fn scenario(seed: u64, rep: &mut Report) {
                     None => {
                         admitted += 1;
                         rep.count("entries_admitted");
+                        // single-stack: an incoming session admits the node with a record that
+                        // names the socket its packets came from
+                        if let Some((sid, sock, ConnectionDirection::Incoming)) = &session_now {
+                            if sid == key && mode != Mode::Dual {
+                                let named = match sock {
+                                    SocketAddr::V4(_) => enr.udp4_socket().map(SocketAddr::V4),
+                                    SocketAddr::V6(_) => enr.udp6_socket().map(SocketAddr::V6),
+                                };
+                                rep.count("admissions_by_incoming_session");
+                                if named != Some(*sock) {
+                                    rep.violation("C12:admitted-with-foreign-address", format!("an incoming session from {sock} admitted the node with a record that names {named:?}"), w("admission"));
+                                }
+                            }
+                        }
                         if !may_add.contains(key) {
                             let via_nodes = discovered_now.iter().any(|e| e.node_id().raw() == *key);
                             rep.violation(if via_nodes { "C12:admitted-by-nodes-response" } else { "C12:admitted-without-session-or-add" }, "a node became a routing-table entry without an established session or an explicit add".into(), w("admission"));
@@ -322,6 +361,18 @@ pub fn scenario(seed: u64, rep: &mut Report) {
                             rep.count("records_replaced_by_discovery");
                             if enr.seq() <= old_enr.seq() {
                                 rep.violation("C12:discovered-record-not-newer", "a record learnt from a NODES response replaced a stored record without a strictly higher sequence number".into(), w("replace"));
+                            }
+                            // the same answer offered an even newer record of this node that meets
+                            // the same conditions: storing that one and then this one replaced a
+                            // stored record by a lower sequence number
+                            if !ip_limit {
+                                if let Some(better) = discovered_now.iter().find(|e| e.node_id().raw() == *key && e.seq() > enr.seq() && contactable(mode, e) && filter(e)) {
+                                    let first = discovered_now.iter().position(|e| rlp_ref::encode_record(e) == rlp_ref::encode_record(better));
+                                    let second = discovered_now.iter().rposition(|e| rlp_ref::encode_record(e) == *rec);
+                                    if first < second {
+                                        rep.violation("C12:discovered-record-not-newer", format!("one NODES answer carried seq {} and then seq {} of a node: the lower one is stored at the end", better.seq(), enr.seq()), w("replace"));
+                                    }
+                                }
                             }
                         } else {
                             rep.violation("C12:record-replaced-without-cause", "a stored record changed without a session, an add or a discovered newer record".into(), w("replace"));
